@@ -462,6 +462,8 @@ def gen_step(rng, d, prof, docs, mode):
             'api': rng.choice(['write', 'render', 'render']),
             'sink': rng.choice(SINKS),
             'zoom': 1 if rng.random() < 0.8 else rng.choice(ZOOMS)}
+    if step['fc'] == 'none' and any('@font-face' in c for c in docs[d]['css']):
+        step['fc'] = 'fresh'      # CSS objects with @font-face need the FontConfiguration of the render (documented)
     step['css'] = rng.choice(['fresh', 'shared']) if step['fc'] == 'shared' else 'fresh'
     if step['api'] == 'render':
         if rng.random() < 0.3:
@@ -533,8 +535,8 @@ def build_monitor(rng, ndocs, nhist, njobs):
             if seeds[0] == seeds[1]:
                 seeds = (seeds[0], (seeds[0] + 2) % 4)
             for s in seeds:
-                st = {'doc': d, 'profile': prof, 'opts': docs[d]['profiles'][prof], 'html': 'fresh', 'css': 'fresh', 'fc': 'none',
-                      'cache': 'none', 'api': 'render', 'sink': 'bytes', 'zoom': 1}
+                st = {'doc': d, 'profile': prof, 'opts': docs[d]['profiles'][prof], 'html': 'fresh', 'css': 'fresh',
+                      'fc': 'fresh' if any('@font-face' in c for c in docs[d]['css']) else 'none', 'cache': 'none', 'api': 'render', 'sink': 'bytes', 'zoom': 1}
                 jobs.append({'hashseed': s, 'kind': 'fresh', 'histories': [{'id': 'fresh-%d-%d-%d' % (d, prof, s), 'steps': [st]}]})
             k += 1
     # (b) histories, several per interpreter (the interpreter's earlier histories are part of the history)
